@@ -33,10 +33,15 @@ func genTypedCase(t *rapid.T, maxVals int) c01Case {
 }
 
 var longLived = map[vh.Cfg]*plenc.Plenc{}
+var longLivedUses = map[vh.Cfg]int{}
 
+// longLivedPlenc returns an instance shared by many cases (its registry,
+// pools and interning tables carry history); it is replaced every few
+// thousand uses to bound the memory its registry pins.
 func longLivedPlenc(cfg vh.Cfg) *plenc.Plenc {
+	longLivedUses[cfg]++
 	p, ok := longLived[cfg]
-	if !ok {
+	if !ok || longLivedUses[cfg]%4000 == 0 {
 		p = vh.NewPlenc(cfg)
 		longLived[cfg] = p
 	}
@@ -85,5 +90,5 @@ var c01 = &vh.Prop[c01Case]{
 func init() { registrars = append(registrars, c01.Register) }
 
 func TestC01(t *testing.T) {
-	c01.Check(t, vh.N(20000, 300000))
+	c01.Check(t, vh.N(20000, 50000))
 }
